@@ -4,7 +4,7 @@
    correspondence (vm_compute) and CPython is the validated oracle for the bound values. *)
 From Coq Require Import List Bool Arith NArith ZArith Lia ZifyN.
 Import ListNotations.
-From GP Require Import Base.Tactics Model.Bind.
+From GP Require Import Base.Tactics Model.Bind Spec.BindSpec Proofs.Bind.
 Ltac Zify.zify_post_hook ::= Z.to_euclidean_division_equations.
 Local Open Scope nat_scope.
 
@@ -60,6 +60,21 @@ Proof.
   - destruct (s_kwarg s); split; intros; congruence.
 Qed.
 
+(* the binding loop IS Python's binding rule: for every signature with distinct parameter names, every
+   number of positional arguments and every list of distinct keywords (repeated keywords are a compile-time
+   error), the loop's outcome - the value of every parameter, *args, **kwargs, or TypeError - is the one
+   the per-slot rule of Spec/BindSpec.v dictates *)
+Theorem C04_binding_rule : forall s nargs kws, NoDup (s_pos s ++ s_kwonly s) -> NoDup kws ->
+  bind_model s nargs kws = spec_bind s nargs kws.
+Proof. intros s nargs kws H1 H2. apply bind_model_spec; assumption. Qed.
+
+(* the rule itself, read off on one call: defaults fill exactly the unsupplied trailing parameters *)
+Example C04_rule_nonvacuous :
+  let s := {| s_pos := [1; 2; 7]; s_ndefs := 2; s_vararg := false; s_kwonly := [4]; s_kwdefs := []; s_kwarg := false |} in
+  NoDup (s_pos s ++ s_kwonly s) /\ spec_bind s 2 [4] = Bound [100; 101; 307; 204] None None /\
+  spec_bind s 2 [2] = BTypeError /\ spec_bind s 1 [] = BTypeError.
+Proof. cbv zeta. split; [repeat constructor; cbn; intuition discriminate|]. vm_compute. auto. Qed.
+
 Example C04_nonvacuous :
   bind_model {| s_pos := [1; 2]; s_ndefs := 1; s_vararg := true; s_kwonly := [4; 5]; s_kwdefs := [5]; s_kwarg := true |} 3 [4; 9]
   = Bound [100; 101; 204; 305] (Some [102]) (Some [(9, 209)]).
@@ -68,3 +83,4 @@ Proof. vm_compute. reflexivity. Qed.
 Print Assumptions C04_callsite_roundtrip.
 Print Assumptions C04_make_function_roundtrip.
 Print Assumptions C04_all_parameters_bound.
+Print Assumptions C04_binding_rule.
